@@ -104,6 +104,7 @@ type tokenSpec struct {
 	Sub     string
 	Jti     string
 	Variant int
+	Iss     string // issuer ("" = https://idp.verif)
 	Azp     string // authorized party claim ("" = absent)
 	Nbf     int64 // not-before claim (0 = absent)
 	Groups  int // number of group names in a "groups" claim (large tokens)
@@ -144,7 +145,11 @@ func jsonSeg(v any) string {
 func mintID(ts tokenSpec) (tok string, sigOK bool) {
 	ks := getKeys()
 	// (with the profile claims providers usually add)
-	claims := map[string]any{"iss": "https://idp.verif", "sub": ts.Sub, "exp": ts.Exp, "iat": ts.Iat, "jti": ts.Jti,
+	iss := ts.Iss
+	if iss == "" {
+		iss = "https://idp.verif"
+	}
+	claims := map[string]any{"iss": iss, "sub": ts.Sub, "exp": ts.Exp, "iat": ts.Iat, "jti": ts.Jti,
 		"email": ts.Sub + "@example.com", "email_verified": true, "name": "User " + ts.Sub, "preferred_username": ts.Sub}
 	if ts.Aud != nil {
 		claims["aud"] = ts.Aud
